@@ -144,13 +144,81 @@ Definition node_deepC (r : nat) (g : game) (st : sstate) (real alpha beta : Z) :
   match checked_moves g with
   | [] => (liftC (no_move_scoreC 2161 g MATE_OFFSET_NODE real), st)
   | _ =>
-      node_finishC g st (Z.of_nat (S (S r))) alpha beta
+      node_finishC g st real (Z.of_nat (S (S r))) alpha beta
         (node_loopC (nodeC (S r)) g real beta (Z.of_nat (S (S r))) (node_sorted g st real) 0
                     (mkL alpha None SCORE_MIN st))
   end.
 
+(* the checked recount of a table entry agrees with the model's, and does not overflow on a table in range *)
+Lemma entry_from_tableC_inl real o e :
+  entry_from_tableC real o = inl e -> e = option_map (entry_from_table real) o.
+Proof.
+  unfold entry_from_tableC, entry_from_table, score_from_table. destruct o as [en|]; cbn [option_map].
+  - destruct (SCORE_MAX - TABLE_MATE_MARGIN <? e_score en).
+    + unfold sub16, checked. destruct (fits_i16 _); intros E; [injection E as <-; reflexivity | discriminate].
+    + destruct (e_score en <? SCORE_MIN + TABLE_MATE_MARGIN).
+      * unfold add16, checked. destruct (fits_i16 _); intros E; [injection E as <-; reflexivity | discriminate].
+      * intros E. injection E as <-. reflexivity.
+  - intros E. injection E as <-. reflexivity.
+Qed.
+
+Lemma entry_from_tableC_ok real o :
+  (forall en, o = Some en -> ScoreRange2.InR (e_score en)) -> 0 <= real <= 255 ->
+  entry_from_tableC real o = inl (option_map (entry_from_table real) o).
+Proof.
+  intros H Hr. destruct (entry_from_tableC real o) as [e|k] eqn:E.
+  - f_equal. now apply entry_from_tableC_inl.
+  - exfalso. unfold entry_from_tableC in E. destruct o as [en|]; [|discriminate].
+    specialize (H en eq_refl). unfold TABLE_MATE_MARGIN in E.
+    unfold ScoreRange2.InR, ScoreRange2.HI, ScoreRange2.LO, SCORE_MIN, SCORE_MAX, MATE_OFFSET_NODE in *.
+    destruct (32767 - 1000 <? e_score en) eqn:E1.
+    + apply Z.ltb_lt in E1. unfold sub16, checked, fits_i16, SCORE_MIN, SCORE_MAX in E.
+      assert (F : ((-32768 <=? e_score en - real) && (e_score en - real <=? 32767)) = true)
+        by (apply andb_true_iff; split; apply Z.leb_le; lia).
+      rewrite F in E. discriminate.
+    + destruct (e_score en <? -32768 + 1000) eqn:E2; [|discriminate].
+      apply Z.ltb_lt in E2. unfold add16, checked, fits_i16, SCORE_MIN, SCORE_MAX in E.
+      assert (F : ((-32768 <=? e_score en + real) && (e_score en + real <=? 32767)) = true)
+        by (apply andb_true_iff; split; apply Z.leb_le; lia).
+      rewrite F in E. discriminate.
+Qed.
+
 Definition node_bodyC (rem : nat) (g : game) (st : sstate) (real alpha beta : Z) : coutcome Z * sstate :=
-  match probe (tfind (s_tbl st) (g_hash g)) (Z.of_nat rem) alpha beta with
+  match entry_from_tableC real (tfind (s_tbl st) (g_hash g)) with
+  | inr k => (COverflow k, st)
+  | inl e =>
+  match probe e (Z.of_nat rem) alpha beta with
+  | Some s => (CDone s, st)
+  | None =>
+      match rem with
+      | O => (liftC (quiescenceC QFUEL g alpha beta real), st)
+      | S O => (liftC (depth1C g alpha beta real), st)
+      | S (S r) =>
+          match checked_moves g with
+          | [] => (liftC (no_move_scoreC 2161 g MATE_OFFSET_NODE real), st)
+          | moves =>
+              node_finishC g st real (Z.of_nat (S (S r))) alpha beta
+                (node_loopC (nodeC (S r)) g real beta (Z.of_nat (S (S r)))
+                   (sort_moves (fun m => move_score m (entry_pv e) (znth (s_killers st) real None) (s_hist st)) moves) 0
+                   (mkL alpha None SCORE_MIN st))
+          end
+      end
+  end
+  end.
+
+Lemma nodeC_unfold rem g st real alpha beta :
+  nodeC rem g st real alpha beta =
+  if negb (s_running (poll st)) then (CAborted (poll st), poll st)
+  else node_bodyC rem g (poll st) real alpha beta.
+Proof.
+  destruct rem as [|[|r]]; reflexivity.
+Qed.
+
+(* on an entry that was recounted without overflow the body is the one of the model's node *)
+Lemma node_bodyC_inl rem g st real alpha beta :
+  entry_from_tableC real (tfind (s_tbl st) (g_hash g)) = inl (node_entry g st real) ->
+  node_bodyC rem g st real alpha beta =
+  match probe (node_entry g st real) (Z.of_nat rem) alpha beta with
   | Some s => (CDone s, st)
   | None =>
       match rem with
@@ -159,17 +227,10 @@ Definition node_bodyC (rem : nat) (g : game) (st : sstate) (real alpha beta : Z)
       | S (S r) => node_deepC r g st real alpha beta
       end
   end.
-
-Lemma nodeC_unfold rem g st real alpha beta :
-  nodeC rem g st real alpha beta =
-  if negb (s_running (poll st)) then (CAborted (poll st), poll st)
-  else node_bodyC rem g (poll st) real alpha beta.
 Proof.
+  intros E. unfold node_bodyC. rewrite E. destruct (probe _ _ _ _); [reflexivity|].
   destruct rem as [|[|r]]; try reflexivity.
-  cbn [nodeC]. unfold node_bodyC, node_deepC, node_sorted, node_sorted_of, entry_pv.
-  destruct (negb (s_running (poll st))); [reflexivity|].
-  destruct (probe _ _ _ _); [reflexivity|].
-  destruct (checked_moves g); reflexivity.
+  unfold node_deepC, node_sorted, node_sorted_of. destruct (checked_moves g); reflexivity.
 Qed.
 
 Lemma root_loopC_nil g depth index r : root_loopC g depth [] index r = CDone r.
@@ -341,8 +402,8 @@ Section NodeSim.
   Qed.
 End NodeSim.
 
-Lemma node_finish_agrees g st remaining alpha beta c o :
-  simO c o -> simP (node_finishC g st remaining alpha beta c) (node_finish g st remaining alpha beta o).
+Lemma node_finish_agrees g st real remaining alpha beta c o :
+  simO c o -> simP (node_finishC g st real remaining alpha beta c) (node_finish g st real remaining alpha beta o).
 Proof.
   destruct c as [l|sa| |k]; cbn [simO]; intros H; try subst o; try reflexivity; try exact I.
 Qed.
@@ -352,7 +413,10 @@ Theorem node_agrees : forall rem g st real a b,
 Proof.
   induction rem as [|rem IH]; intros g st real a b; rewrite nodeC_unfold, node_unfold;
     (destruct (negb (s_running (poll st))); [reflexivity|]);
-    unfold node_bodyC, node_body;
+    (destruct (entry_from_tableC real (tfind (s_tbl (poll st)) (g_hash g))) as [e|k] eqn:Ee;
+     [|unfold node_bodyC; rewrite Ee; exact I]);
+    (apply entry_from_tableC_inl in Ee as Ee'; fold (node_entry g (poll st) real) in Ee'; subst e);
+    rewrite (node_bodyC_inl _ _ _ _ _ _ Ee); unfold node_body;
     (destruct (probe _ _ a b); [reflexivity|]).
   - apply simQ_lift, quiescence_agrees.
   - destruct rem as [|r].
@@ -583,8 +647,8 @@ Definition child_res (r : coutcome Z * sstate) : Prop :=
 Lemma noC_liftC c : noQ c -> noC (liftC c).
 Proof. destruct c; exact (fun H => H). Qed.
 
-Lemma noC_node_finish g st remaining alpha beta c :
-  noC c -> noC (fst (node_finishC g st remaining alpha beta c)).
+Lemma noC_node_finish g st real remaining alpha beta c :
+  noC c -> noC (fst (node_finishC g st real remaining alpha beta c)).
 Proof. destruct c; exact (fun H => H). Qed.
 
 Lemma noC_root_finish g st depth c : noC c -> noC (fst (root_finishC g st depth c)).
@@ -703,9 +767,12 @@ Proof.
   induction rem as [|rem IH]; intros g st real a b HA Hg HT Hw; rewrite nodeC_unfold;
     pose proof (RT_poll st HT) as HTp;
     (destruct (s_running (poll st)); cbn [negb]; [|exact I]);
-    unfold node_bodyC;
-    (destruct (probe (tfind (s_tbl (poll st)) (g_hash g)) _ a b) as [sp|]; [exact I|]);
-    pose proof (ArgsOK_range _ _ HA) as HAr; destruct HA as [HA1 HA2]; destruct Hw as [Ha Hb]; cbn [fst].
+    pose proof (ArgsOK_range _ _ HA) as HAr;
+    (assert (Ee : entry_from_tableC real (tfind (s_tbl (poll st)) (g_hash g)) = inl (node_entry g (poll st) real))
+       by (apply entry_from_tableC_ok; [intros en Hf; exact (proj1 (HTp _ _ Hf)) | lia]));
+    rewrite (node_bodyC_inl _ _ _ _ _ _ Ee);
+    (destruct (probe (node_entry g (poll st) real) _ a b) as [sp|]; [exact I|]);
+    destruct HA as [HA1 HA2]; destruct Hw as [Ha Hb]; cbn [fst].
   - apply noC_liftC. apply no_overflow_quiescence; try assumption; lia.
   - destruct rem as [|r].
     + apply noC_liftC. apply no_overflow_depth1; [assumption | split; assumption | lia].
